@@ -358,8 +358,19 @@ func verifHist(c map[string]any) any {
 	}
 	digests := verifDigests(c)
 	ops, _ := c["ops"].([]any)
+	// the cache's clock (DiskCache.now, which stamps every file the cache writes): "frozen" = one instant for the whole
+	// history (as the package's own tests do), "coarse" = advances by one second every third operation, else the real clock
+	frozen := time.Date(2021, 1, 1, 0, 0, 0, 0, time.UTC)
+	opno := 0
+	switch c["clock"] {
+	case "frozen":
+		cache.now = func() time.Time { return frozen }
+	case "coarse":
+		cache.now = func() time.Time { return frozen.Add(time.Duration(opno/3) * time.Second) }
+	}
 	var steps []any
 	for _, o := range ops {
+		opno++
 		op, _ := o.(map[string]any)
 		res := verifOp(cache, dir, op)
 		snap := verifSnapshot(cache, dir, digests)
